@@ -440,6 +440,8 @@ func checkC19(c *Check) {
 		c.RuleDoc["R19.9"] = "= R06.1 for the descriptor: its bytes are read with io.ReadFull (a single Read may return part of the content size and leave the check byte unread)"
 		c.only(func(k string) bool { return strings.HasPrefix(k, "descriptorChecksum#") || strings.HasPrefix(k, "FrameDescriptor.Write#hash-range") }, func() { ruleDescriptorConstants(c, p, "R19.10") })
 		c.RuleDoc["R19.10"] = "= R13.8: the header check byte covers the whole descriptor, content size included"
+		ruleErrorOperandsWrapped(c, p, "R19.11")
+		c.RuleDoc["R19.11"] = "errors that become part of another error are wrapped with %w (the latched header error keeps its identity on later calls)"
 		ruleHeaderParsers(c, p, "R19.7")
 		c.RuleDoc["R19.7"] = "who parses a header: Reader.init and ValidFrameHeader (which hands its whole input to the parser)"
 		c.RuleDoc["R19.8"] = "Reset re-arms the frame on every path, so the next stream's header is parsed afresh (= R17.4)"
@@ -1664,4 +1666,108 @@ func errorfWraps(v ssa.Value, prm ssa.Value) bool {
 		})
 	}
 	return found
+}
+
+// errorfOperands: the operands of a fmt.Errorf call with a constant format, each with the verb that formats it.
+// ok is false when the format is not a constant or uses explicit argument indexes or '*' widths.
+type errorfOperand struct {
+	val  ssa.Value // the value before its conversion to interface{}
+	verb byte
+}
+
+func errorfOperands(call *ssa.Call) ([]errorfOperand, bool) {
+	if !calleeIs(call, "fmt", "Errorf") || len(call.Call.Args) < 2 {
+		return nil, false
+	}
+	k, isK := call.Call.Args[0].(*ssa.Const)
+	if !isK || k.Value == nil || k.Value.Kind() != constant.String {
+		return nil, false
+	}
+	format := constant.StringVal(k.Value)
+	var verbs []byte
+	for i := 0; i < len(format); i++ {
+		if format[i] != '%' {
+			continue
+		}
+		i++
+		for i < len(format) && strings.IndexByte("+-# 0123456789.", format[i]) >= 0 {
+			i++
+		}
+		if i >= len(format) || format[i] == '[' || format[i] == '*' {
+			return nil, false
+		}
+		if format[i] == '%' {
+			continue
+		}
+		verbs = append(verbs, format[i])
+	}
+	sl, isS := call.Call.Args[1].(*ssa.Slice)
+	if !isS {
+		return nil, false
+	}
+	al, isA := sl.X.(*ssa.Alloc)
+	if !isA || al.Referrers() == nil {
+		return nil, false
+	}
+	ops := make([]errorfOperand, len(verbs))
+	for _, r := range *al.Referrers() {
+		ia, isIA := r.(*ssa.IndexAddr)
+		if !isIA || ia.Referrers() == nil {
+			continue
+		}
+		ik, isIK := ia.Index.(*ssa.Const)
+		if !isIK {
+			return nil, false
+		}
+		idx := int(ik.Int64())
+		for _, rr := range *ia.Referrers() {
+			st, isSt := rr.(*ssa.Store)
+			if !isSt || idx < 0 || idx >= len(verbs) {
+				continue
+			}
+			v := st.Val
+			switch x := v.(type) {
+			case *ssa.MakeInterface:
+				v = x.X
+			case *ssa.ChangeInterface:
+				v = x.X
+			}
+			ops[idx] = errorfOperand{v, verbs[idx]}
+		}
+	}
+	return ops, true
+}
+
+// ruleErrorOperandsWrapped: an error handed to fmt.Errorf is formatted with %w. The library reports its conditions
+// as sentinels that callers tell apart with errors.Is; the state machine latches the first failure as
+// fmt.Errorf("%s: %w", state, err) and hands that to every later call: an error formatted with %v or %s keeps its
+// text and loses its identity.
+func ruleErrorOperandsWrapped(c *Check, p *Program, rule string) {
+	errIface := types.Universe.Lookup("error").Type().Underlying().(*types.Interface)
+	n := 0
+	for _, path := range []string{pkgRoot, pkgStream, pkgBlock} {
+		for _, fn := range moduleFuncs(p, path) {
+			for _, ci := range callsIn(fn) {
+				call, isCall := ci.(*ssa.Call)
+				if !isCall {
+					continue
+				}
+				ops, ok := errorfOperands(call)
+				if !ok {
+					continue
+				}
+				for i, op := range ops {
+					if op.val == nil || !types.Implements(op.val.Type(), errIface) {
+						continue
+					}
+					n++
+					c.Sites++
+					c.Cond(op.verb == 'w', rule, fmt.Sprintf("%s#errorf-operand#%d", shortFn(fn), i+1), p.InstrPos(ci), "an error that becomes part of another error is wrapped (%w): callers, and later calls that return the latched error, recognise the cause with errors.Is", "verb %w", fmt.Sprintf("the error operand %s is formatted with %%%c: the resulting error has the same text but no longer matches its cause (an invalid header checksum and an invalid block size become indistinguishable by identity on every call after the first)", shortVal(op.val), op.verb))
+				}
+			}
+		}
+	}
+	if n == 0 {
+		c.Fail(rule, "errorf-operands", "", "error operands of fmt.Errorf are resolved", "no fmt.Errorf call with an error operand found (anchor unresolved)")
+	}
 }
